@@ -902,14 +902,28 @@ fn rounded_items<S: Shape + serde::Serialize>(s: &S) -> Value {
     if let Some(items) = j["items"].as_array() {
         for it in items {
             if let Some(st) = it.get("start") {
-                out.push(json!([(st[0].as_f64().unwrap() * 1000.).round() as i64, (st[1].as_f64().unwrap() * 1000.).round() as i64]));
+                out.push(json!([(st[0].as_f64().filter(|v| v.is_finite() && v.abs() < 1e5).unwrap_or(0.) * 1000.).round() as i64, (st[1].as_f64().filter(|v| v.is_finite() && v.abs() < 1e5).unwrap_or(0.) * 1000.).round() as i64]));
             } else if let Some(p) = it.get("position") {
-                out.push(json!([(p[0].as_f64().unwrap() * 1000.).round() as i64, (p[1].as_f64().unwrap() * 1000.).round() as i64,
-                                (it["radius"].as_f64().unwrap() * 1000.).round() as i64]));
+                out.push(json!([(p[0].as_f64().filter(|v| v.is_finite() && v.abs() < 1e5).unwrap_or(0.) * 1000.).round() as i64, (p[1].as_f64().filter(|v| v.is_finite() && v.abs() < 1e5).unwrap_or(0.) * 1000.).round() as i64,
+                                (it["radius"].as_f64().filter(|v| v.is_finite() && v.abs() < 1e5).unwrap_or(0.) * 1000.).round() as i64]));
             }
         }
     }
     json!(out)
+}
+
+/// a placed shape whose coordinates or radii are not finite numbers (they serialise to null)
+fn has_nonfinite<S: Shape + serde::Serialize>(s: &S) -> bool {
+    fn bad(v: &Value) -> bool {
+        match v {
+            Value::Null => true,
+            Value::Number(n) => n.as_f64().map(|x| !x.is_finite()).unwrap_or(true),
+            Value::Array(a) => a.iter().any(bad),
+            Value::Object(o) => o.values().any(bad),
+            _ => false,
+        }
+    }
+    serde_json::to_value(s).map(|j| bad(&j["items"])).unwrap_or(true)
 }
 
 /// rotation by theta followed by: 0 nothing, 1 the mirror x -> -x, 2 the mirror y -> -y
@@ -981,6 +995,7 @@ fn record_pairs<S: Shape + Intersect + serde::Serialize>(
             let mut answers = vec![];
             let mut p = Value::Null;
             let mut q = Value::Null;
+            let mut nonfinite = false;
             for (i, mo) in motions().iter().enumerate() {
                 let a = shape.transform(&Transform2::from(mo * t1));
                 let b = shape.transform(&Transform2::from(mo * t2));
@@ -988,10 +1003,11 @@ fn record_pairs<S: Shape + Intersect + serde::Serialize>(
                     p = rounded_items(&a);
                     q = rounded_items(&b);
                 }
+                nonfinite = nonfinite || has_nonfinite(&a) || has_nonfinite(&b);
                 answers.push(a.intersects(&b));
                 answers.push(b.intersects(&a));
             }
-            out.push(json!({"shape": name, "kind": kind, "p": p, "q": q, "answers": answers, "d": d}).to_string());
+            out.push(json!({"shape": name, "kind": kind, "p": p, "q": q, "answers": answers, "d": d, "nonfinite": nonfinite}).to_string());
         }
     }
 }
@@ -1034,7 +1050,7 @@ fn record_aligned(name: &str, shape: &LineShape, rng: &mut rand_pcg::Pcg64Mcg, c
             answers.push(x.intersects(&y));
             answers.push(y.intersects(&x));
         }
-        out.push(json!({"shape": format!("{} aligned gap {} turn {:e}", name, gap, delta), "kind": "poly", "p": p, "q": q, "answers": answers, "d": d}).to_string());
+        out.push(json!({"shape": format!("{} aligned gap {} turn {:e}", name, gap, delta), "kind": "poly", "p": p, "q": q, "answers": answers, "d": d, "nonfinite": false}).to_string());
     }
 }
 
